@@ -131,9 +131,7 @@ class Kernel:
             err = 'INJECTED'
         rec['err'] = err
         self.log.append(rec)
-        if err:
-            raise NL.NetlinkError('Received error header!: %s' % err)
-        return []
+        return err
 
     def sad_keys(self):
         return sorted(self.sad)
@@ -188,6 +186,60 @@ class FakeConn:
         self.world.current.status_replies.append(data)
 
     def close(self):
+        pass
+
+
+ERRNO = {'EEXIST': 17, 'ESRCH': 3, 'INJECTED': 12}
+
+
+class FakeNlSock:
+    """the request socket of NetlinkProtocol.send_recv: decodes the request the daemon really emitted (with the daemon's own
+    ctypes structures; their layout is C14's business), applies it to the model kernel and answers with an ack or an error"""
+
+    def __init__(self, world):
+        self.world = world
+        self.reply = b''
+
+    def send(self, data):
+        data = bytes(data)
+        hdr = NL.NetlinkHeader.parse(data)
+        body = data[16:hdr.length]
+        payload, attrs = None, {}
+        if hdr.type == X.XFRM_MSG_NEWSA:
+            payload = X.XfrmUserSaInfo.parse(body)
+            off = X.sizeof_sa if hasattr(X, 'sizeof_sa') else len(bytes(X.XfrmUserSaInfo()))
+            while off + 4 <= len(body):
+                alen, code = struct.unpack_from('<HH', body, off)
+                if alen < 4:
+                    break
+                attrs[code] = X.XfrmAlgo.parse(body[off + 4:off + alen])
+                off += alen
+        elif hdr.type == X.XFRM_MSG_DELSA:
+            payload = X.XfrmUserSaId.parse(body)
+        elif hdr.type == X.XFRM_MSG_NEWPOLICY:
+            payload = X.XfrmUserPolicyInfo.parse(body)
+            off = len(bytes(X.XfrmUserPolicyInfo()))
+            while off + 4 <= len(body):
+                alen, code = struct.unpack_from('<HH', body, off)
+                if alen < 4:
+                    break
+                if code == X.XFRMA_TMPL:
+                    attrs[code] = X.XfrmUserTmpl.parse(body[off + 4:off + alen])
+                off += alen
+        elif hdr.type in (X.XFRM_MSG_FLUSHSA, X.XFRM_MSG_FLUSHPOLICY):
+            payload = X.XfrmUserSaFlush.parse(body)
+        err = self.world.current.kernel.request(hdr.type, hdr.flags, payload, attrs)
+        code = -ERRNO.get(err, 22) if err else 0
+        self.reply = struct.pack('<IHHIIi', 36, NL.NLMSG_ERROR, 0, hdr.seq, hdr.pid, code) + data[:16]
+        return len(data)
+
+    def recv(self, n):
+        return self.reply
+
+    def close(self):
+        pass
+
+    def bind(self, a):
         pass
 
 
@@ -433,7 +485,7 @@ class World:
         w = self
         self._saved = {
             'urandom': os.urandom, 'SystemRandom': M.SystemRandom, 'ikesa.random': IKESA.random, 'ikesa.time': IKESA.time, 'ikesa.traceback': IKESA.traceback,
-            'xfrm.random': X.random, 'conf.random': CONF.random, 'send_recv': X.Xfrm.__dict__.get('send_recv'),
+            'xfrm.random': X.random, 'conf.random': CONF.random, '_get_socket': X.Xfrm.__dict__.get('_get_socket'),
             'get_socket': X.Xfrm.__dict__.get('get_socket'), 'ctrl.socket': CTRL.socket, 'ctrl.select': CTRL.select, 'ctrl.logging': CTRL.logging,
             'log_disable': logging.root.manager.disable, 'log_level': logging.root.level,
         }
@@ -448,7 +500,7 @@ class World:
         IKESA.time = types.SimpleNamespace(time=lambda: w.now)
         self._install_dh()
         IKESA.traceback = types.SimpleNamespace(print_exc=lambda *a, **k: None)
-        X.Xfrm.send_recv = classmethod(lambda cls, pt, fl, payload, attributes=None: w.current.kernel.request(pt, fl, payload, attributes))
+        X.Xfrm._get_socket = classmethod(lambda cls, groups: FakeNlSock(w))
         X.Xfrm.get_socket = classmethod(lambda cls: FakeXfrmSock(w))
         shim = types.SimpleNamespace(
             socket=lambda fam=real_socket.AF_INET, kind=real_socket.SOCK_STREAM, *a: FakeSock(w, fam, kind),
@@ -514,7 +566,7 @@ class World:
         IKESA.random, IKESA.time = s['ikesa.random'], s['ikesa.time']
         IKESA.traceback = s['ikesa.traceback']
         X.random, CONF.random = s['xfrm.random'], s['conf.random']
-        for name, key in (('send_recv', 'send_recv'), ('get_socket', 'get_socket')):
+        for name, key in (('_get_socket', '_get_socket'), ('get_socket', 'get_socket')):
             if s[key] is None:
                 try:
                     delattr(X.Xfrm, name)
